@@ -215,6 +215,22 @@ class Interp:
                     stack.append([d[1] for d in self._decisions[:i]] + [alt])
         return paths
 
+    def run_eager(self, fi, eager, args=None, store=None, selfkey="self"):
+        """enumerate the product of `eager` (store key or call text -> values) and, for each, all remaining decision
+        paths; every path carries p.cfg with the eager values, so an input the code fails to consult is still judged
+        for each of its values"""
+        import itertools
+        keys = list(eager)
+        out = []
+        for vals in itertools.product(*[eager[k] for k in keys]):
+            st = dict(store or {})
+            cfg = dict(zip(keys, vals))
+            st.update(cfg)
+            for p in self.run_all(fi, args=args, store=st, selfkey=selfkey):
+                p.cfg = cfg
+                out.append(p)
+        return out
+
     def _run_once(self, fi, args, store, selfkey, prefix):
         import copy
 
@@ -382,7 +398,24 @@ class Interp:
                 if item.optional_vars is not None:
                     self.assign(item.optional_vars, v, frame)
             self.exec_block(st.body, frame)
-        elif isinstance(st, (ast.Delete, ast.Assert, ast.Import, ast.ImportFrom, ast.Global, ast.Nonlocal)):
+        elif isinstance(st, ast.Delete):
+            for t in st.targets:
+                if isinstance(t, ast.Subscript):
+                    base = self.eval(t.value, frame)
+                    i = self.eval(t.slice, frame)
+                    if isinstance(base, (list, dict)) and not isinstance(i, Residual):
+                        try:
+                            del base[i]
+                        except (KeyError, IndexError, TypeError) as ex:
+                            raise Raised(type(ex).__name__)
+                    self.path.trace.append(("delitem", f"{self.attr_key(t.value, frame) or unparse(t.value)}[{txt(i)}]", None))
+                elif isinstance(t, ast.Name):
+                    frame.pop(t.id, None)
+                elif isinstance(t, ast.Attribute):
+                    k = self.attr_key(t, frame)
+                    self.store.pop(k, None)
+                    self.path.trace.append(("del", k, None))
+        elif isinstance(st, (ast.Assert, ast.Import, ast.ImportFrom, ast.Global, ast.Nonlocal)):
             pass
         elif isinstance(st, (ast.FunctionDef, ast.ClassDef)):
             pass
@@ -651,6 +684,13 @@ class Interp:
         if f is None:
             raise Undecidable(f"binary operator {op.__name__}")
         if isinstance(a, Residual) or isinstance(b, Residual):
+            # arithmetic with a definite None / division by a definite zero faults whatever the unknown is
+            if a is None or b is None:
+                self.path.trace.append(("raise", "TypeError", f"{txt(a)} {sym} {txt(b)}"))
+                raise Raised("TypeError")
+            if op in (ast.Div, ast.FloorDiv, ast.Mod) and not isinstance(b, Residual) and b == 0:
+                self.path.trace.append(("raise", "ZeroDivisionError", f"{txt(a)} {sym} {txt(b)}"))
+                raise Raised("ZeroDivisionError")
             return Residual(f"{_wrap(txt(a))} {sym} {_wrap(txt(b))}")
         try:
             return f(a, b)
@@ -750,6 +790,9 @@ class Interp:
 
     def e_Call(self, e, frame):
         full = unparse(e)
+        if full in self.store:
+            self.path.trace.append(("consult", full, self.store[full]))
+            return self.store[full]
         if full in self.domains:
             return self.choose(full, self.domains[full], memo=full not in self.volatile)
         f = e.func
@@ -829,6 +872,10 @@ class Interp:
         if recv is None and meth in _BUILTINS and meth not in frame:
             if meth == "isinstance":
                 bt = {"list": list, "int": int, "str": str, "dict": dict, "tuple": tuple, "float": float, "bool": bool}
+                if len(args) == 2 and isinstance(args[0], Obj):
+                    ts = args[1] if isinstance(args[1], (list, tuple)) else [args[1]]
+                    if all(isinstance(t, Residual) and t.text in bt for t in ts):
+                        return False  # an abstract object is never a builtin container/scalar
                 if len(args) == 2 and not isinstance(args[0], (Residual, Obj)):
                     ts = args[1] if isinstance(args[1], (list, tuple)) else [args[1]]
                     if all(isinstance(t, Residual) and t.text in bt for t in ts):
